@@ -343,14 +343,17 @@ def rule_tables(ck, repo, w):
     mv = FuncView(m)
     atoms = Atoms({"field.name.value == '__typename'": "is_typename", "field.name.value.startswith('__')": "dunder",
                    "graphql_type is None": "!found", "find_field_reduced_type(parent_type_name, field.name.value, schema) is None": "!found"})
-    for tn, found in itertools.product([False, True], repeat=2):
-        val = {"is_typename": tn, "found": found, "dunder": tn}
+    for tn, dunder, found in itertools.product([False, True], repeat=3):
+        if tn and not dunder:
+            continue
+        val = {"is_typename": tn, "found": found, "dunder": dunder}
         want = "ok" if (tn or found) else "error"
         got = set()
         for tr in mv.cfg.simulate(lambda n, env: evaluate(n.ast, env, val, atoms)):
             rv = _ret_class(tr)
             got.add("ok" if (not isinstance(rv, str) and unparse(rv) == "[]") else ("error" if not isinstance(rv, str) and "graphql_error_from_nodes" in unparse(rv) else str(rv)))
-        ck.ob(f"field-existence table {{typename: {tn}, defined: {found}}}", got == {want}, m, m.node, construct=f"table:field-exists:{int(tn)}{int(found)}",
+        ck.ob(f"field-existence table {{typename: {tn}, other __name: {dunder and not tn}, defined: {found}}}", got == {want}, m, m.node,
+              construct=f"table:field-exists:{int(tn)}{int(dunder)}{int(found)}",
               detail=f"got {sorted(got)}, specification {want}" + atoms.note())
 
     # ---- fragments on composite types / type existence
